@@ -62,6 +62,20 @@ impl LocalMetadataClient {
     const NANOS_PER_HOUR: i64 = 3_600_000_000_000;
 }
 
+#[cfg(feature = "verif-hooks")]
+impl LocalMetadataClient {
+    /// Verification hook: move every stored lease instant `secs` seconds into the past,
+    /// which is observationally the same as `secs` seconds of wall-clock time passing.
+    pub fn verif_shift_lease_times(&self, secs: i64) {
+        let delta = chrono::Duration::seconds(secs);
+        let mut leases = self.compaction_leases.write();
+        for lease in leases.leases.values_mut() {
+            lease.acquired_at -= delta;
+            lease.expires_at -= delta;
+        }
+    }
+}
+
 impl Default for LocalMetadataClient {
     fn default() -> Self {
         Self::new()
